@@ -11,9 +11,9 @@ SecureDataManager::SecureDataManager() {}
 SecureDataManager::~SecureDataManager() {}
 static long vp_aes_store[16], vp_rng_store[8];
 static ByteString bytes_of(const unsigned char* p, CK_ULONG len, CK_ULONG cap) { ByteString v(p, len > cap ? cap : len); return v; }
-bool RFC4880::PBEDeriveKey(const ByteString&, ByteString& salt, AESKey** ppKey)
+bool RFC4880::PBEDeriveKey(const ByteString& pin, ByteString& salt, AESKey** ppKey)
 {
-	OUT(pbe_n)++; OUT(pbe_saltlen) = salt.size();
+	OUT(pbe_n)++; OUT(pbe_saltlen) = salt.size(); OUT(pbe_pinlen) = pin.size();
 	if (!IN(pbe_ok)) return false;
 	*ppKey = new AESKey(256);
 	return true;
@@ -22,6 +22,26 @@ size_t SymmetricAlgorithm::getBlockSize() const { return VP_BLK; }
 bool SymmetricAlgorithm::decryptInit(const SymmetricKey*, const SymMode::Type, const ByteString& IV, bool, size_t, const ByteString&, size_t) { OUT(dinit_n)++; OUT(dinit_ivlen) = IV.size(); return IN(dinit_ok) != 0; }
 bool SymmetricAlgorithm::decryptUpdate(const ByteString& encryptedData, ByteString& data) { OUT(dupd_n)++; OUT(dupd_inlen) = encryptedData.size(); if (!IN(dupd_ok)) return false; data = bytes_of(vp_in_dec, IN(declen), VP_DEC); return true; }
 bool SymmetricAlgorithm::decryptFinal(ByteString& data) { if (!IN(dfin_ok)) return false; data = bytes_of(vp_in_fin, IN(finlen), VP_BLK); return true; }
+bool SymmetricAlgorithm::encryptInit(const SymmetricKey*, const SymMode::Type, const ByteString& IV, bool, size_t, const ByteString&, size_t) { OUT(einit_n)++; OUT(einit_ivlen) = IV.size(); return IN(einit_ok) != 0; }
+bool SymmetricAlgorithm::encryptUpdate(const ByteString& data, ByteString& encryptedData)
+{
+	CK_ULONG n = OUT(eupd_n)++;
+	const unsigned char* d = data.const_byte_str();
+	if (n == 0)
+	{
+		// first call: the magic
+		OUT(eupd0_magic) = (data.size() == 3 && d[0] == 0x52 && d[1] == 0x4A && d[2] == 0x52) ? 1 : 0;
+		if (!IN(eupd0_ok)) return false;
+		encryptedData = bytes_of(vp_in_enc, IN(enc0len), VP_BLK);
+		return true;
+	}
+	// second call: the clear master key
+	OUT(eupd1_len) = data.size(); OUT(eupd1_w) = IN(w) < data.size() ? d[IN(w)] : 0x100;
+	if (!IN(eupd1_ok)) return false;
+	encryptedData = bytes_of(vp_in_enc, IN(enc1len), 32);
+	return true;
+}
+bool SymmetricAlgorithm::encryptFinal(ByteString& encryptedData) { OUT(efin_n)++; if (!IN(efin_ok)) return false; encryptedData = bytes_of(vp_in_enc, IN(enc2len), VP_BLK); return true; }
 bool RNG::generateRandom(ByteString& data, const size_t len) { OUT(rng_n)++; data = bytes_of(vp_in_rand, len, 32); return true; }
 static bool vp_after_gate() { OUT(after_gate_n)++; return true; }
 
@@ -37,7 +57,7 @@ extern "C" void vp_sdm(void)
 	unsigned char blob[VP_DEC + 16]; for (int i = 0; i < VP_DEC + 16; i++) blob[i] = (unsigned char)i;
 	ByteString b = bytes_of(&blob[0], IN(bloblen), VP_DEC + 16);
 	m.soEncryptedKey = b; m.userEncryptedKey = b;
-	ByteString pin = bytes_of(&blob[0], 4, 4), in = bytes_of(&blob[0], IN(inlen), 16), out;
+	ByteString pin = bytes_of(&blob[0], IN(op) >= 6 ? IN(pinlen) : (CK_ULONG)4, (CK_ULONG)4), in = bytes_of(&blob[0], IN(inlen), 16), out;
 	switch (IN(op))
 	{
 		case 1: OUT(ret) = m.loginSO(pin) ? 1 : 0; break;
@@ -45,9 +65,13 @@ extern "C" void vp_sdm(void)
 		case 3: m.logout(); OUT(ret) = 1; break;
 		case 4: OUT(ret) = m.decrypt(in, out) ? 1 : 0; OUT(plain_len) = out.size(); break;
 		case 5: OUT(ret) = m.encrypt(in, out) ? 1 : 0; break;
+		case 6: OUT(ret) = m.setUserPIN(pin) ? 1 : 0; break;
+		case 7: OUT(ret) = m.setSOPIN(pin) ? 1 : 0; break;
 	}
 	OUT(so) = m.isSOLoggedIn() ? 1 : 0; OUT(user) = m.isUserLoggedIn() ? 1 : 0; OUT(masked_len) = m.maskedKey.size();
 	CK_ULONG w = IN(w);
+	OUT(soblob_len) = m.soEncryptedKey.size(); OUT(userblob_len) = m.userEncryptedKey.size();
+	OUT(soblob_w) = w < m.soEncryptedKey.size() ? m.soEncryptedKey[w] : 0x100; OUT(userblob_w) = w < m.userEncryptedKey.size() ? m.userEncryptedKey[w] : 0x100;
 	OUT(mask_w) = w < m.mask->size() ? (*m.mask)[w] : 0x100;
 	OUT(unmasked_w) = (w < m.maskedKey.size() && w < m.mask->size()) ? (CK_ULONG)(m.maskedKey[w] ^ (*m.mask)[w]) : 0x100;
 }
